@@ -290,6 +290,10 @@ func (e *Env) ident(name string) TV {
 		return TV{S: "false", Sort: sBool, Ty: types.Typ[types.Bool]}
 	case "result":
 		if len(e.results) == 0 {
+			// no function result here (a loop invariant): a local variable of that name
+			if v, ok := e.vars["result"]; ok {
+				return e.valTV(v)
+			}
 			e.fail("no result in this context")
 		}
 		return e.valTV(e.results[0])
